@@ -5,7 +5,7 @@ import itertools
 
 from ..gprog import res_menu, shapes
 from ..monitors import mon_c03
-from ..sched import replay_case, run_case
+from ..sched import replay_case, run_case, selection_set
 from ..spaces import flag_falsy_variants, kinds_all, kinds_rotating, prog_of, shard_iter, single_selections
 
 ID = "C03"
@@ -75,6 +75,22 @@ def cases(tier: str):
             for sel in single_selections(p)[1:]:
                 for mc in (1, 2):
                     yield dict(base, res="t" * n, mc=mc, sel=dict(sel, alias="tag_eq_id"), is_async=False, ties=0)
+    # B3. two targets / exclusions / roots named descendant-first (the order of an alias list must not matter)
+    for n in (3, 4):
+        for es in shapes(n):
+            if n == 4 and len(es) > 4:
+                continue
+            base = dict(n=n, es=[(i, j, "pos", ()) for (i, j) in es])
+            for i in range(n):
+                for j in range(i + 1, n):
+                    for key in ("T", "X", "R"):
+                        sel = {"T": None, "X": None, "R": None}
+                        sel[key] = [j, i]
+                        try:
+                            selection_set(prog_of(base), sel)
+                        except ValueError:
+                            continue  # outside the quantifier (e.g. a non-root named as root)
+                        yield dict(base, res="t" * n, mc=2, sel=sel, is_async=False, ties=0)
     # C. one decorated function used on several call sites
     for n in (2, 3):
         for es in shapes(n):
